@@ -259,7 +259,15 @@ class BTSCameraData:
         VEC2D.bwrite(file, self.focus)  # focus
         VEC2D.bwrite(file, self.optical_center)  # optical_center
         f64.bwrite(file, self.x_distortion_coefficients)  # x_distortion_coefficients
+        f64.bpad(
+            file,
+            self.max_distorsion_coefficients - len(self.x_distortion_coefficients),
+        )
         f64.bwrite(file, self.y_distortion_coefficients)  # y_distortion_coefficients
+        f64.bpad(
+            file,
+            self.max_distorsion_coefficients - len(self.y_distortion_coefficients),
+        )
         self.view_port.bwrite(file)  # view_port
 
     @property
